@@ -39,7 +39,7 @@ JOB_TIMEOUT = 2300
 A = ['a', ' ', "'", '"', '\\', '#', ';', '%', '[', ']', ',', '\n', '\u00e9']
 BASE_VALUES = ['simple', 'with space', 'a=b', 'a:b', 'x#y', 'x;y', "it's", 'say "hi"', 'ünï', '[x]', 'a,b', '100%', '  lead', 'trail  ', '', '"quoted"', "'q'", 'back\\slash', '$HOME', '{x}', ' Caf\u00e9 \u2603 ', 'na\u00efve']
 SPECIAL = {
-    'privacy': [[], ['HIDDEN:a.*'], ['PUBLIC:a', 'private:b.**', 'HIDDEN:c']], 'systemclass': ['pydoctor.model.System', 'nope', 'pydoctor.nope.X'],
+    'privacy': [[], ['HIDDEN:a.*'], ['PUBLIC:a', 'private:b.**', 'HIDDEN:c'], ['PUBLIC:a', 'HIDDEN:b']], 'systemclass': ['pydoctor.model.System', 'nope', 'pydoctor.nope.X'],
     'htmlwriter': ['pydoctor.templatewriter.TemplateWriter', 'x.y'], 'intersphinx_cache_max_age': ['1d', '2w', 'x'], 'buildtime': ['2020-01-01 00:00:00', 'bad'],
     'projectbasedirectory': ['.', 'sub/dir'], 'templatedir': [[], ['t1'], ['t1', 't2']], 'packages': [[], ['p1'], ['p1', 'p2']],
 }
@@ -62,7 +62,7 @@ def values(a: Any) -> List[Any]:
     if a.type is int:
         return ['0', '1', '7', '-1', 'x']
     if isinstance(a, argparse._AppendAction):
-        return [[], ['one'], ['one', 'two'], ['a,b', '[c]'], ['x y', "q'"], ['one', 'one']]
+        return [[], ['one'], ['one', 'two'], ['a,b', '[c]'], ['x y', "q'"], ['one', 'one'], ['my templates/dir', 'second item here', 'plain'], ['a  b', 'c d  e']]
     return BASE_VALUES
 
 
@@ -139,11 +139,23 @@ def load(fname: Any, text: str, argv: Sequence[str]) -> Tuple[Any, List[str]]:
         return dct, [str(x.message) for x in w] + ([err.getvalue()] if err.getvalue() else [])
 
 
-FORMATS = {'toml': ('pyproject.toml', 'tool.pydoctor'), 'setupcfg': ('setup.cfg', 'tool:pydoctor'), 'ini': ('pydoctor.ini', 'pydoctor')}
+FORMATS = {'toml': ('pyproject.toml', 'tool.pydoctor'), 'setupcfg': ('setup.cfg', 'tool:pydoctor'), 'ini': ('pydoctor.ini', 'pydoctor'),
+           # the INI-only way of writing a list: one item per line
+           'setupcfg-lines': ('setup.cfg', 'tool:pydoctor'), 'ini-lines': ('pydoctor.ini', 'pydoctor')}
+
+
+BASE_FORMATS = ('toml', 'setupcfg', 'ini')
+
+
+def lines_ok(v: Any) -> bool:
+    """one-item-per-line syntax is only defined for lists of >= 2 items that configparser keeps as written"""
+    return isinstance(v, list) and len(v) >= 2 and all(i and i == i.strip() and i[0] not in '#;[\'"' and '\n' not in i for i in v)
 
 
 def file_for(parser: Any, a: Any, v: Any, fmt: str) -> Tuple[str, str]:
     fname, section = FORMATS[fmt]
+    if fmt.endswith('-lines'):
+        return fname, f'[{section}]\n{key_of(parser, a)} =\n' + ''.join('    ' + i.replace('%', '%%') + '\n' for i in v)
     return fname, (toml_text(parser, a, v) if fmt == 'toml' else ini_text(parser, a, v, section))
 
 
@@ -156,6 +168,8 @@ def judge_option(dest: str, res: Dict[str, Any]) -> None:
             continue
         cli, _ = load(None, '', cli_args(a, v))
         for fmt in FORMATS:
+            if fmt.endswith('-lines') and not lines_ok(v):
+                continue
             fname, text = file_for(parser, a, v, fmt)
             got, warns = load(fname, text, [])
             res['evals'] += 1
@@ -193,7 +207,7 @@ def judge_override(dest: str, res: Dict[str, Any]) -> None:
     if not isinstance(only_cli, dict) or dest not in only_cli:
         return        # the action's dest is not an attribute of Options (nothing comparable)
     only_file_cli, _ = load(None, '', cli_args(a, v_file))
-    for fmt in FORMATS:
+    for fmt in BASE_FORMATS:
         fname, text = file_for(parser, a, v_file, fmt)
         both, _ = load(fname, text, cli_args(a, v_cli))
         res['evals'] += 1
@@ -222,7 +236,7 @@ def judge_override(dest: str, res: Dict[str, Any]) -> None:
                 singles += (r1.get(dest) or []) if isinstance(r1, dict) else []
             if isinstance(seq, dict) and seq.get(dest) != singles:
                 res['violations'].append(core.violation(f'accumulate-order/cli', f'{dest}: repeated {items} -> {seq.get(dest)!r}, expected {singles!r}', {'kind': 'override', 'dest': dest, 'fmt': 'cli'}))
-            for fmt in FORMATS:
+            for fmt in BASE_FORMATS:
                 fname, text = file_for(parser, a, items, fmt)
                 gotf, _ = load(fname, text, [])
                 res['evals'] += 1
@@ -454,7 +468,7 @@ def jobs(tier: str) -> Iterable[Tuple[str, Any]]:
         yield ('options', ('option', d))
     for d in dests:
         yield ('override-accumulate', ('override', d))
-    for fmt in FORMATS:
+    for fmt in BASE_FORMATS:
         yield ('unknown-keys', ('unknown', fmt))
     for first in HOPS:
         yield ('read-histories', ('history', first))
